@@ -10,7 +10,7 @@ namespace Spydr.Edif
 
 /-- what later steps of the reader (and `view05`) look at in the dictionary of a port, cable, definition,
     library or netlist -/
-def KO : List Str := [kIDENT, kNAME, kVIEWID]
+def KO : List Str := [kIDENT, kNAME, kVIEWID, kEXT]
 
 /-- … and in the dictionary of an instance (its properties are kept) -/
 def KI : List Str := [kIDENT, kNAME, kPROPS, kPID, kPORIG]
